@@ -224,6 +224,7 @@ type node struct {
 	putLog          []string // human-readable list of the Puts offered so far, with their outcome
 	injectErr       bool     // the next write of the underlying store fails
 	failedPutServed []string
+	hadPair         bool // storeDKGOutput has completed at least once
 }
 
 type servedRec struct {
@@ -285,6 +286,8 @@ type snapshot struct {
 	expect string      // class the model predicts for this point ("" = consistent)
 	served []servedRec // what the callback had received when the snapshot was taken
 	puts   []string    // the Puts offered up to then
+	// a complete (group, share) pair of an earlier epoch had been written before this point
+	hadPair bool
 }
 
 // recStore wraps the real file key store; every mutating call is followed by a snapshot.
@@ -326,11 +329,11 @@ func (r *recStore) Reset() error {
 	}
 	n.snapN++
 	rel, _ := filepath.Rel(n.dir, sp)
-	if err := os.Remove(filepath.Join(half, rel)); err != nil {
+	if err := os.Remove(filepath.Join(half, rel)); err != nil && !errors.Is(err, iofs.ErrNotExist) {
 		return err
 	}
 	n.ops = append(n.ops, "PFileRemove KShare")
-	n.snaps = append(n.snaps, &snapshot{name: "reset/share-removed", dir: half, run: append([]string{}, n.ops...), cp: fmt.Sprintf("(CAfter %d)", len(n.ops)), kind: "half-reset"})
+	n.snaps = append(n.snaps, &snapshot{name: "reset/share-removed", dir: half, run: append([]string{}, n.ops...), cp: fmt.Sprintf("(CAfter %d)", len(n.ops)), kind: "half-reset", hadPair: n.hadPair})
 	n.ops = append(n.ops, "PFileRemove KGroup")
 	n.snap("reset/done", "after", "")
 	return nil
@@ -361,7 +364,7 @@ func (n *node) fileSave(kf string, epoch int, path string, do func() error) erro
 		if err := os.WriteFile(filepath.Join(d, rel), data, 0o600); err != nil {
 			return err
 		}
-		n.snaps = append(n.snaps, &snapshot{name: tag, dir: d, run: append([]string{}, n.ops...), cp: cp, kind: kind})
+		n.snaps = append(n.snaps, &snapshot{name: tag, dir: d, run: append([]string{}, n.ops...), cp: cp, kind: kind, hadPair: n.hadPair})
 		return nil
 	}
 	if err := mk(fmt.Sprintf("save-%s-e%d/created-empty", kf, epoch), "before-write", fmt.Sprintf("(CAfter %d)", len(n.ops)), nil); err != nil {
@@ -402,7 +405,7 @@ func (n *node) snap(name, kind, expect string) *snapshot {
 	if err != nil {
 		panic(err)
 	}
-	s := &snapshot{name: name, dir: d, run: append([]string{}, n.ops...), cp: fmt.Sprintf("(CAfter %d)", len(n.ops)), kind: kind, expect: expect}
+	s := &snapshot{name: name, dir: d, run: append([]string{}, n.ops...), cp: fmt.Sprintf("(CAfter %d)", len(n.ops)), kind: kind, expect: expect, hadPair: n.hadPair}
 	n.mu.Lock()
 	s.served = append([]servedRec{}, n.servedLog...)
 	s.puts = append([]string{}, n.putLog...)
@@ -844,6 +847,7 @@ func runScheme(rep *emit.Report, sch *crypto.Scheme, seed int64, root, tier stri
 	if err := n.bp.VerifCrashStoreDKGOutput(ctx, w.groups[1], w.shares[1]); err != nil {
 		return nil, nil, err
 	}
+	n.hadPair = true
 	events = append(events, "EvComplete "+r1.coq())
 	// ---- production ----
 	var chainOps []string
@@ -1007,6 +1011,12 @@ func monitor(rep *emit.Report, scheme string, s *snapshot, o obs, _ map[string][
 		if o.gPresent || o.sPresent || o.restart != "RFresh" {
 			rep.Fail("C13-files-without-dkg-record", "key files present although no DKG completed", in)
 		}
+	case s.hadPair && !left && (!o.gPresent || !o.sPresent):
+		// a key file of an earlier epoch was REMOVED (not merely being rewritten in place) although
+		// the node did not leave
+		rep.Fail("C13-previous-epoch-files-destroyed-before-new-ones-written",
+			fmt.Sprintf("a complete group/share pair had been on disk, dkg.db records epoch %d as completed, and at this crash point group file present=%v (%s), share present=%v (%s): restart = %s",
+				o.fin.epoch, o.gPresent, o.group.class, o.sPresent, o.share.class, o.restart), in)
 	case !o.gPresent && !o.sPresent:
 		if !left {
 			rep.Fail("C13-db-ahead-of-files", fmt.Sprintf("dkg.db records epoch %d as completed but there is no group file and no share: restart = %s", o.fin.epoch, o.restart), in)
